@@ -122,12 +122,18 @@ def crate_attr(kind='path', trailing=False):
     return Attr('dw', metas_body([MNameValue('crate', kind, P('dw'))], trailing=trailing))
 
 
-def decorate(rng, it):
-    """Insert the (required) `crate = dw` option at a random position; sometimes damage stage 1."""
+STAGE1_KINDS = {'dup': 0.03, 'badval': 0.08, 'unnecessary': 0.12, 'args': 0.14, 'forms': 0.15, 'marker': 0.17, 'dwq': 0.20}
+
+
+def decorate(rng, it, kind=None):
+    """Insert the (required) `crate = dw` option at a random position; sometimes damage stage 1 (`kind`: force one of
+    STAGE1_KINDS)."""
     it = copy.deepcopy(it)
     # sometimes `#[derive_where(crate = dw,)]`: a trailing comma after the only option
     it.attrs.insert(rng.randrange(len(it.attrs) + 1), crate_attr(rng.choice(['path', 'path', 'str']), trailing=rng.random() < 0.25))
     r = rng.random()
+    if kind is not None:
+        r = STAGE1_KINDS[kind]
     if r < 0.06:
         it.attrs.insert(rng.randrange(len(it.attrs) + 1), crate_attr())                      # duplicate crate option
     elif r < 0.10:
@@ -247,6 +253,22 @@ def items_for(prop, seed, n, zero):
     for k, (name, it) in enumerate(enumerate_items.all_items(['names'])):
         if k % 9 == 0 and compile_ready(it):
             out.append(('names', decorate(rng, bharness.b_transform(it))))
+    # every kind of stage-1 damage on items that carry helper attributes on variants and fields (the error path has to
+    # strip them all): a fixed number per kind, not left to chance
+    per = max(3, n // 40)
+    for kind in STAGE1_KINDS:
+        got, tries1 = 0, 0
+        while got < per and tries1 < 400:
+            tries1 += 1
+            it = bgen.gen(rng, zero)
+            if it is None or not compile_ready(it):
+                continue
+            if not any(v.bodies or any(f.bodies for f in v.fields) for v in it.variants):
+                continue
+            d = decorate(rng, bharness.b_transform(it), kind)
+            if d is not None:
+                out.append(('stage1-' + kind, d))
+                got += 1
     # compile-ready random items: valid, and with token-level damage to attribute bodies
     tries = 0
     while len([1 for s, _ in out if s in ('valid', 'malformed', 'semantic')]) < n and tries < 60 * n:
